@@ -182,6 +182,23 @@ def nodeDs (p : Program) (cfg : Cfg) (H : BodyFn) : List NodeD :=
 /-- initial contents: tile t of the test collection holds 1000 + t (harness/ptg_rt.c) -/
 def initHeap : Heap := fun c => match c with | .tile k => 1000 + k | _ => 0
 
+/-! ### list-based heaps for the driver
+  A `Heap` is a function (convenient for the proofs: extensionality); compiled, a chain of such closures recomputes the
+  writes of every earlier node at every lookup.  The driver therefore runs the same node actions on an association list
+  (newest write first); `get_runOrderL` (Proofs/PtgRt2.lean) proves that this computes the same heap. -/
+
+abbrev LHeap := List (Cell × Nat)
+
+def LHeap.get (l : LHeap) (c : Cell) : Nat :=
+  match l.find? (fun w => w.1 == c) with
+  | some w => w.2
+  | none => initHeap c
+
+def NodeD.execL (d : NodeD) (l : LHeap) : LHeap := (d.writes (d.reads.map l.get)).reverse ++ l
+
+def runOrderL (ds : List NodeD) (order : List Nat) (l : LHeap) : LHeap :=
+  order.foldl (fun l i => match ds[i]? with | some d => d.execL l | none => l) l
+
 /-- reference sequential interpreter: the bodies in enumeration order (class index, then `internal_init` order) -/
 def seqRun (p : Program) (cfg : Cfg) (H : BodyFn) : Heap :=
   runOrder (nodeDs p cfg H) (List.range (allInstances p).length) initHeap
